@@ -16,6 +16,13 @@ TEXT = {
  "C07": ("Lean theorems over mirrors of the decimal/ip/datetime/duration parsers and operations (written-out recognisers + checked arithmetic); the model is the "
          "definition of 'exact': any disagreement with the real extension functions on generated strings/values is a failing input.",
          "proof over a hand-written model; std::net / chrono / regex are inside the implementation under check and are re-defined in the model"),
+ "C11": ("Lean theorems over mirrors of the schema-conformance checkers (typecheck_restricted_expr_against_schematype, Type::typecheck_restricted_expr, "
+         "validate_entity with attributes/ancestors/tags/enum ids/actions, validate_request with scope variables and context): each checker accepts exactly "
+         "the data satisfying a declarative specification (InstanceOfType, ConformsEntity, ConformsContext, ConformsRequest), and every single-fault class of "
+         "the statement falsifies the specification; tied to the code by a differential run over generated schemas, conformant data and single-fault mutations "
+         "through all 16 schema-taking entry points, which are also compared with each other.",
+         "proof over a hand-written model of the checkers on concrete values; the resolved schema is serialised from Rust's ValidatorSchema (schema "
+         "construction not modelled); correspondence is sampled (generators in harness/src/gen_schema.rs)"),
 }
 checks = []
 for pid in ALL:
